@@ -59,26 +59,57 @@ Inductive parse_res (A : Type) :=
 | POutside.       (* syntax outside the modelled subset (non-decimal integer forms) *)
 Arguments POk {A}. Arguments PError {A}. Arguments PHelp {A}. Arguments POutside {A}.
 
-(** strconv.ParseInt(s, 0, 64), decimal forms only: [sign] digits without a leading 0 (or "0") *)
+(** strconv.ParseInt(s, 0, 64): optional sign; base from the prefix (0x 16, 0b 2, 0o or a leading 0: 8, else 10);
+    underscores only between digits or right after the base prefix; range of int64 *)
 Definition is_digit (x : N) : bool := N.leb 48 x && N.leb x 57.
-Fixpoint dec_value (s : bytes) (acc : Z) : Z :=
-  match s with [] => acc | x :: r => dec_value r (acc * 10 + Z.of_N (x - 48))%Z end.
-Definition int_char (x : N) : bool :=    (* characters some integer syntax of base 0 can contain *)
-  is_digit x || (N.leb 97 x && N.leb x 102) || (N.leb 65 x && N.leb x 70) ||
-  existsb (N.eqb x) [120; 88; 111; 79; 98; 66; 95; 43; 45]%N.
+Definition lower (x : N) : N := if N.leb 65 x && N.leb x 90 then (x + 32)%N else x.
+Definition digit_val (x : N) : option N :=
+  let y := lower x in
+  if is_digit x then Some (x - 48)%N else if N.leb 97 y && N.leb y 122 then Some (y - 97 + 10)%N else None.
+(** underscoreOK of strconv: [saw] is '^' at the start, '0' after a digit (or the base prefix), '_' after an underscore *)
+Fixpoint underscore_ok (s : bytes) (saw : N) : bool :=
+  match s with
+  | [] => negb (N.eqb saw 95)
+  | x :: r =>
+      if N.eqb x 95 then (N.eqb saw 48) && underscore_ok r 95
+      else if (match digit_val x with Some _ => true | None => false end) then underscore_ok r 48
+      else false
+  end.
+Fixpoint digits_value (base : N) (s : bytes) (acc : Z) : option Z :=
+  match s with
+  | [] => Some acc
+  | x :: r => if N.eqb x 95 then digits_value base r acc
+              else match digit_val x with
+                   | Some d => if N.ltb d base then digits_value base r (acc * Z.of_N base + Z.of_N d)%Z else None
+                   | None => None
+                   end
+  end.
 Definition parse_int (s : bytes) : parse_res Z :=
-  let body := match s with 43%N :: r => r | 45%N :: r => r | _ => s end in
   let neg := match s with 45%N :: _ => true | _ => false end in
-  if negb (forallb int_char s) then PError
-  else match body with
-       | [] => PError
-       | d :: r =>
-           if forallb is_digit body && (negb (N.eqb d 48) || match r with [] => true | _ => false end) then
-             let v := dec_value body 0 in
+  let body := match s with 43%N :: r => r | 45%N :: r => r | _ => s end in
+  let '(base, digits, prefixed) :=
+    match body with
+    | 48%N :: c :: r =>
+        let lc := lower c in
+        if N.eqb lc 120 then (16%N, r, true) else if N.eqb lc 98 then (2%N, r, true) else if N.eqb lc 111 then (8%N, r, true)
+        else (8%N, c :: r, false)
+    | _ => (10%N, body, false)
+    end in
+  let us_ok := match body with
+               | [] => false
+               | _ => if prefixed then underscore_ok digits 48 else underscore_ok body 94
+               end in
+  match digits with
+  | [] => PError
+  | _ =>
+    if negb us_ok then PError
+    else match digits_value base digits 0 with
+         | None => PError
+         | Some v =>
              let v' := if neg then (- v)%Z else v in
              if ((v' <? - 9223372036854775808) || (9223372036854775807 <? v'))%Z then PError else POk v'
-           else POutside
-       end.
+         end
+  end.
 Definition parse_bool (s : bytes) : option bool :=
   if existsb (beqb s) [bos "1"; bos "t"; bos "T"; bos "TRUE"; bos "true"; bos "True"] then Some true
   else if existsb (beqb s) [bos "0"; bos "f"; bos "F"; bos "FALSE"; bos "false"; bos "False"] then Some false
